@@ -35,5 +35,12 @@ CHECKS = {
         design_ref="DESIGN.md section 3, C06",
         note="trusted base: the grammar recogniser m_ctor (mc/props/C06.py); finite numeric tag values only",
     ),
+    "C09": dict(
+        engine="lattice",
+        technique="bounded exhaustive enumeration of law x coordinate system of boosted vector x coordinate system of booster x 4D alphabet x velocity alphabet; metamorphic Lorentz laws evaluated through public methods at 60 digits and in float64",
+        text="Invariance of the Minkowski product (hence proper time), inversion by the opposite boost, relativistic velocity addition along an axis, boost_p4 = boost_beta3(to_beta3), boostX/Y/Z(beta) = boost_beta3 along the axis = boostX/Y/Z(gamma) with signed gamma, dimension dispatch of boost()/boostCM_of() with TypeError for wrong dimensions, and v.boostCM_of*(v) at rest with time component tau are evaluated for all 12 systems of the boosted vector, all 12/6 systems of the booster, time-like / near-light-cone / space-like / negative-time vectors and the velocity alphabets.",
+        design_ref="DESIGN.md section 3, C09",
+        note=NOTE_L1 + "; M_geo is used only to decide representability of intermediates",
+    ),
 }
 NOT_YET = {}
